@@ -1021,7 +1021,12 @@ fn run_sh(ws: &[&str]) -> (String, String) {
     let Some(prologue) = PROLOGUES.get(pro) else {
         return ("bad-case".into(), "-".into());
     };
-    let script = format!("{prologue}{script}");
+    // `neg=1`: the whole flow as a negated pipeline `! …` (the data must flow all the same)
+    let neg = kv_n(ws, "neg") != 0;
+    if neg && (var || st.is_some()) {
+        return ("bad-case".into(), "-".into());
+    }
+    let script = if neg { format!("{prologue}! {script}") } else { format!("{prologue}{script}") };
     // Rust-side statement of the property on this flow
     let mut want = data.clone();
     if matches!(src, "var" | "dbl" | "here") {
@@ -1077,6 +1082,11 @@ fn run_sh(ws: &[&str]) -> (String, String) {
         }
         if out.exit_status != n as i32 {
             return (obs, format!("FAIL:exit-status(got {} want {n})", out.exit_status));
+        }
+    } else if neg {
+        obs = format!("{obs} st={}", out.exit_status);
+        if out.exit_status != 1 {
+            return (obs, format!("FAIL:negated-status(got {})", out.exit_status));
         }
     } else if !out.stderr.is_empty() || out.exit_status != 0 {
         obs = format!("ERR(status={},stderr={}) {}", out.exit_status, out.stderr.len(), obs);
@@ -1142,7 +1152,9 @@ fn run_fd(ws: &[&str]) -> (String, String) {
         ),
         _ => return ("bad-case".into(), "-".into()),
     };
-    let script = format!("{prologue}{body}");
+    // `mon=1`: job control on, a pipeline then runs inside one foreground subshell
+    let monitor = if kv_n(ws, "mon") != 0 { "set -m\n" } else { "" };
+    let script = format!("{monitor}{prologue}{body}");
     PAYLOAD.with(|p| *p.borrow_mut() = data.clone());
     SNAPS.with(|m| m.borrow_mut().clear());
     let mut config = Config::new(&script);
@@ -1530,6 +1542,7 @@ fn rd_payload(n: usize, bad: usize) -> Vec<u8> {
     match bad {
         2 => body.push(0xE6),
         5 => (),
+        6 => body.push(b'\\'), // a backslash as the very last byte
         _ => body.push(b'\n'),
     }
     body
@@ -1662,8 +1675,9 @@ fn gen_sh(rng: &mut Rng, n: usize) -> String {
     } else {
         String::new()
     };
+    let neg = if (kind == "out" || kind == "file") && rng.chance(1, 5) { " neg=1" } else { "" };
     format!(
-        "sh n={n} pat={pat} per=0 nl={nl} src={src} shape={shape} kind={kind} pro={pro} seed={}{st}",
+        "sh n={n} pat={pat} per=0 nl={nl} src={src} shape={shape} kind={kind} pro={pro} seed={}{st}{neg}",
         rng.below(1_000_000)
     )
 }
@@ -1728,7 +1742,7 @@ fn main() {
     let mut rng = Rng::new(opts.seed ^ 0xC14);
 
     // (i) operation sequences
-    let n_ops = if thorough { 200_000 } else { 6_000 };
+    let n_ops = if thorough { 120_000 } else { 6_000 };
     for _ in 0..n_ops {
         let len = 4 + rng.below(if thorough { 60 } else { 36 });
         let case = gen_ops(&mut rng, len);
@@ -1744,7 +1758,7 @@ fn main() {
             run(&case, false);
         }
     }
-    for _ in 0..(if thorough { 40_000 } else { 600 }) {
+    for _ in 0..(if thorough { 25_000 } else { 600 }) {
         let n = rng.below(4 * PIPE_SIZE + 3);
         let case = gen_xfer(&mut rng, n);
         run(&case, false);
@@ -1770,13 +1784,16 @@ fn main() {
                 let nl = rng.below(3).min(n);
                 let case = format!("fd pro={pro} form={form} n={n} pat={pat} nl={nl}");
                 run(&case, false);
+                if form.contains("pipe") && (thorough || n <= PIPE_SIZE) {
+                    run(&format!("{case} mon=1"), false);
+                }
             }
         }
     }
 
     // (ii-f) `read` on a pipe
     for n in [0usize, 1, 2, 7, 100, PIPE_BUF + 1, PIPE_SIZE + 3] {
-        for bad in 0..6 {
+        for bad in 0..7 {
             for raw in 0..2 {
                 run(&format!("rd n={n} bad={bad} raw={raw}"), false);
             }
@@ -1802,7 +1819,7 @@ fn main() {
             run(&case, false);
         }
     }
-    for _ in 0..(if thorough { 8_000 } else { 300 }) {
+    for _ in 0..(if thorough { 5_000 } else { 300 }) {
         let n = if rng.chance(1, 2) { rng.below(200) } else { rng.below(2 * PIPE_SIZE + 3) };
         let case = gen_hd(&mut rng, n);
         run(&case, false);
@@ -1820,7 +1837,7 @@ fn main() {
         let case = gen_dbl(&mut rng);
         run(&case, false);
     }
-    for _ in 0..(if thorough { 15_000 } else { 400 }) {
+    for _ in 0..(if thorough { 10_000 } else { 400 }) {
         let n = rng.below(4 * PIPE_SIZE + 3);
         let case = gen_sh(&mut rng, n);
         run(&case, false);
